@@ -40,6 +40,17 @@ pub type Result<T> = core::result::Result<T, Error>;
 /// A shorthand for the [deserialized type associated with a type](DeserializeInner::DeserType).
 pub type DeserType<'a, T> = <T as DeserializeInner>::DeserType<'a>;
 
+/// Drops the [`MemBackend`] already written into a partially initialized
+/// [`MemCase`] unless it is forgotten, so that the backing memory is released
+/// also when deserialization returns an error or panics.
+struct BackendGuard(*mut MemBackend);
+
+impl Drop for BackendGuard {
+    fn drop(&mut self) {
+        unsafe { core::ptr::drop_in_place(self.0) }
+    }
+}
+
 /// Main deserialization trait. It is separated from [`DeserializeInner`] to
 /// avoid that the user modify its behavior, and hide internal serialization
 /// methods.
@@ -112,14 +123,11 @@ pub trait Deserialize: DeserializeInner {
         }
         // deserialize the data structure
         let mem = unsafe { (*ptr).1.as_ref().unwrap() };
-        let s = match Self::deserialize_eps(mem) {
-            Ok(s) => s,
-            Err(e) => {
-                // The backend has been already written: release it.
-                unsafe { core::ptr::drop_in_place(addr_of_mut!((*ptr).1)) };
-                return Err(e.into());
-            }
-        };
+        // The backend has been already written: release it if deserialization
+        // fails or panics.
+        let guard = BackendGuard(unsafe { addr_of_mut!((*ptr).1) });
+        let s = Self::deserialize_eps(mem)?;
+        core::mem::forget(guard);
         // write the deserialized struct in the memcase
         unsafe {
             addr_of_mut!((*ptr).0).write(s);
@@ -166,14 +174,11 @@ pub trait Deserialize: DeserializeInner {
         }
         // deserialize the data structure
         let mem = unsafe { (*ptr).1.as_ref().unwrap() };
-        let s = match Self::deserialize_eps(mem) {
-            Ok(s) => s,
-            Err(e) => {
-                // The backend has been already written: release it.
-                unsafe { core::ptr::drop_in_place(addr_of_mut!((*ptr).1)) };
-                return Err(e.into());
-            }
-        };
+        // The backend has been already written: release it if deserialization
+        // fails or panics.
+        let guard = BackendGuard(unsafe { addr_of_mut!((*ptr).1) });
+        let s = Self::deserialize_eps(mem)?;
+        core::mem::forget(guard);
         // write the deserialized struct in the MemCase
         unsafe {
             addr_of_mut!((*ptr).0).write(s);
@@ -217,14 +222,11 @@ pub trait Deserialize: DeserializeInner {
 
         let mmap = unsafe { (*ptr).1.as_ref().unwrap() };
         // deserialize the data structure
-        let s = match Self::deserialize_eps(mmap) {
-            Ok(s) => s,
-            Err(e) => {
-                // The backend has been already written: release it.
-                unsafe { core::ptr::drop_in_place(addr_of_mut!((*ptr).1)) };
-                return Err(e.into());
-            }
-        };
+        // The backend has been already written: release it if deserialization
+        // fails or panics.
+        let guard = BackendGuard(unsafe { addr_of_mut!((*ptr).1) });
+        let s = Self::deserialize_eps(mmap)?;
+        core::mem::forget(guard);
         // write the deserialized struct in the MemCase
         unsafe {
             addr_of_mut!((*ptr).0).write(s);
